@@ -89,16 +89,25 @@ func (r *reloadHAProxy) When(_ any) time.Duration {
 	defer r.mu.Unlock()
 
 	now := time.Now()
-	next := r.last.Add(r.interval)
+
+	// a reload is already scheduled, return the remaining time
+	if r.last.After(now) {
+		return r.last.Sub(now)
+	}
 
 	// not rate limited, allow to reload now
+	next := r.last.Add(r.interval)
 	if next.Before(now) {
 		r.last = now
 		return 0
 	}
 
-	// rate limited, return the remaining time to the next reload
-	return time.Until(next)
+	// rate limited, schedule the next reload and return the
+	// remaining time; the scheduled time needs to be recorded,
+	// otherwise a request arriving just after it would be allowed
+	// to reload again without waiting the whole interval
+	r.last = next
+	return next.Sub(now)
 }
 
 func (r *reloadHAProxy) NumRequeues(_ any) int {
